@@ -416,16 +416,64 @@ Definition mc_notify (maxpo : N) (self peer : list N) (m : option (Z * list (lis
        if ((status =? 1) || (status =? 2))%Z then for_each (fun _gid => group_touch maxpo self peer) gids
        else Ret E_ERR).
 
+(** [boson.DistanceCmp(a, x, y)] at HEAD: error unless BOTH lengths equal [len(a)]; then the
+    loop [for i := range a { x[i] ^ a[i]; y[i] ^ a[i] }] — an index beyond x or y is a run-time panic *)
+Fixpoint cmp_loop_p (a x y : list N) : res Z :=
+  match a with
+  | [] => Val 0%Z
+  | ai :: a' =>
+      match x, y with
+      | xi :: x', yi :: y' =>
+          let dx := N.lxor xi ai in
+          let dy := N.lxor yi ai in
+          if dx =? dy then cmp_loop_p a' x' y'
+          else if dx <? dy then Val 1%Z else Val (-1)%Z
+      | _, _ => Pan
+      end
+  end.
+(** [len_guard] is the guard as written in the source; the seeded change C37-1 replaces [||] by [&&] *)
+Definition len_guard_or (a x y : list N) : bool :=
+  negb (Nat.eqb (length a) (length x)) || negb (Nat.eqb (length a) (length y)).
+Definition len_guard_and (a x y : list N) : bool :=
+  negb (Nat.eqb (length a) (length x)) && negb (Nat.eqb (length a) (length y)).
+Definition distance_cmp_g (guard : list N -> list N -> list N -> bool) (a x y : list N) : res (option Z) :=
+  if guard a x y then Val None                      (* return 0, errors.New("address length must match") *)
+  else r <- cmp_loop_p a x y ;; Val (Some r).
+Definition distance_cmp_p := distance_cmp_g len_guard_or.
+(** [a.Closer(x, y)] = [DistanceCmp(x, a, y) == 1], the error dropped by the callers here *)
+Definition closer_p (a x y : list N) : res bool :=
+  r <- distance_cmp_p x a y ;; Val (match r with Some 1%Z => true | _ => false end).
+
+(** [getCloserKnownGID] / [getCloserSelfGID]: scan of the groups that have members (any order:
+    [sync.Map.Range]); [closer] starts as the zero address and a zero (empty) closer is replaced
+    without a comparison *)
+Fixpoint closer_scan (gid : list N) (closer : list N) (groups : list (list N)) : res (list N) :=
+  match groups with
+  | [] => Val closer
+  | g :: r =>
+      match closer with
+      | [] => closer_scan gid g r
+      | _ => yes <- closer_p g gid closer ;; closer_scan gid (if yes then g else closer) r
+      end
+  end.
+(** [getForwardNodes(gid)]: the known groups first, then the joined ones *)
+Definition forward_nodes (gid : list N) (known joined : list (list N)) : res unit :=
+  _k <- closer_scan gid [] known ;; _j <- closer_scan gid [] joined ;; Val tt.
+
 (** [onFindGroup]; [served]: the group is known here and yields at least one address (then the
     reply is written); otherwise [req.Ttl++] (int32) is compared with maxTTL and the request is
-    forwarded; an empty result returns nil without a reply *)
-Definition mc_find_group (max_ttl : Z) (served : bool) (m : option find_group_req) : outcome :=
+    forwarded to nodes of the closest known group; an empty result returns nil without a reply *)
+Definition mc_find_group (max_ttl : Z) (served : bool) (known joined : list (list N)) (m : option find_group_req) : outcome :=
   run (req <- from_read m E_ERR ;;
-       if served then Val tt else guard (wrap32 (fg_ttl req + 1) <? max_ttl)%Z E_ERR).
+       if served then Val tt
+       else guard (wrap32 (fg_ttl req + 1) <? max_ttl)%Z E_ERR ;;; forward_nodes (fg_gid req) known joined).
 
-(** [onMulticast]: de-duplication, own messages dropped, delivery and forwarding never fail *)
-Definition mc_multicast (self origin gid : list N) (m : option unit) : outcome :=
-  run (_m <- from_read m E_ERR ;; Val tt).
+(** [onMulticast]: de-duplication, own messages dropped; [Multicast]: a group object for the gid
+    delivers itself, otherwise the message is forwarded towards the closest known group *)
+Definition mc_multicast (self origin gid : list N) (has_group : bool) (known joined : list (list N)) (m : option unit) : outcome :=
+  run (_m <- from_read m E_ERR ;;
+       if bytes_eqb origin self then Val tt
+       else if has_group then Val tt else forward_nodes gid known joined).
 
 Section Multicast.
   Variable fixed : bool.
